@@ -140,6 +140,23 @@ claim("C05", "proof",
       "HKDF reference is sensitive to how the three HMAC update pieces are chunked.",
       "CBMC: harness-asserted postconditions over specification stubs and an uninterpreted HMAC model", "4/C05")
 
+claim("C09", "proof",
+      "Configuration independence is obtained by proving the same canonical-view contracts per configuration: the "
+      "permutation under each C backend, the pre-computed initial values in each of the three state encodings against "
+      "p^12 of the specified IV block, the masked-word toolkit and masked keys for every share count, and the "
+      "acquire/release balance of the incremental sponge functions in the checker build (abort unreachable).",
+      "Assembly backends are not re-proved; higher-level compositions are proved in the 64-bit C configuration only; "
+      "acquire/release entry states are sampled and use a frame-only permutation stub.",
+      "CBMC code contracts (DFCC) and full-domain assertions, repeated per build configuration", "4/C09")
+claim("C12", "proof",
+      "CBMC's memory-safety and undefined-behaviour checks with exactly-sized buffers, null pointers for empty optional "
+      "inputs and assigns clauses as output frames, on the anchors of the property (byte operations, hex codec, tag check, "
+      "nonce helpers, masked words and keys, HKDF, HMAC, AEAD entry points) and on asconcrypt's file-name helpers; two "
+      "genuine out-of-bounds defects were found this way and repaired.",
+      "Alignment, assembly, C++, libc internals and the tools' I/O paths are not covered; asconcrypt's temporary buffer is "
+      "shrunk from BUFSIZ to 32 bytes in its harness (bounded, labelled).",
+      "CBMC safety checks inside DFCC-enforced contracts (assigns clauses as frames) with exact-size is_fresh/malloc buffers", "4/C12")
+
 NA_DEFAULT = {
     "C11": "secret-independence of control flow and addresses is a relational (2-safety) property of the shipped object code; a CBMC contract describes one execution of the C source and has no taint or relational mode (DESIGN section 6)",
     "C17": "compilability of C++ members is a compiler verdict, and CBMC's C++ front end rejects this repository's C++ (DESIGN 2.8, section 6)",
